@@ -268,10 +268,18 @@ class GOb(Obligation):
                     symbolic_reason=why, polynomial=("^1/2" not in why and "abs(" not in why and "sign(" not in why))
 
     def _monitor(self, path):
-        envs = self._envs(path, 1)
+        envs = self._envs(path, 3)
         if not envs:
             return True, "monitor skipped: no concrete instance"
-        env = envs[0]
+        last = None
+        for env in envs:
+            try:
+                return self._monitor_at(path, env)
+            except np.linalg.LinAlgError as e:  # a degenerate native instance (e.g. rank > size): try the next environment
+                last = e
+        return True, f"monitor skipped: native instances degenerate ({last})"
+
+    def _monitor_at(self, path, env):
         res, prims, pairs, _checks, path_inputs = path.value
         G.INPUTS.update(path_inputs)  # opaque tensors are re-declared on every path: use this path's declarations
         try:
